@@ -34,7 +34,7 @@ ASSUMPTIONS = [
     'Sample(N): at most N rows, strictly increasing source frames, first row is frame 0 (which frames a sample picks is C15)',
     'channel names are matched exactly as the format stores them (BIT/LIS mnemonics are 4 characters, blank padded)',
 ]
-PROBES = ['x_not_resolved_by_format', 'empty_selection_skipped', 'step_not_dividing', 'sample_lt_frames', 'channel_subset', 'subset_unknown_name', 'multi_valued_reduced', 'value_wider_than_field', 'several_log_passes',
+PROBES = ['negative_step', 'x_not_resolved_by_format', 'empty_selection_skipped', 'step_not_dividing', 'sample_lt_frames', 'channel_subset', 'subset_unknown_name', 'multi_valued_reduced', 'value_wider_than_field', 'several_log_passes',
           'indirect_x', 'conv_bit', 'conv_rp66v1', 'conv_lis', 'single_frame_selected', 'subset_includes_x']
 CONVERTERS_ENABLED = ['bit', 'rp66v1', 'lis']
 
@@ -59,6 +59,8 @@ def generate(seed, tier):
     sl = rng.wpick([(3, None), (5, 'slice'), (2, 'sample')])
     if sl == 'slice':
         sl = ['slice', rng.pick([None, None, 0, 1, 2, 5]), rng.pick([None, None, 3, 7, 20, -1, -2]), rng.pick([None, 1, 2, 3, 4, 7])]
+        if rng.chance(0.15):
+            sl = ['slice', rng.pick([None, -1, 20, 5]), rng.pick([None, 0, 2, -30]), -rng.pick([1, 1, 2, 3, 4])]
     elif sl == 'sample':
         sl = ['sample', rng.pick([1, 2, 3, 5, 8, 64])]
     if rng.chance(0.5) or not names:
@@ -196,7 +198,7 @@ def _execute(scenario, res, br):
     r = br.run('alone', scenario['runs'][0], alone=rel)
     res.op('convert')
     res.sim_time = r.get('sim_time', 0.0)
-    facts0 = {'converter': conv, 'slice_kind': 'none' if cfg['slice'] is None else cfg['slice'][0], 'subset': bool(cfg['channels']), 'reduce': cfg['reduce']}
+    facts0 = {'converter': conv, 'slice_kind': 'none' if cfg['slice'] is None else (cfg['slice'][0] if cfg['slice'][0] != 'slice' or (cfg['slice'][3] or 1) > 0 else 'slice-descending'), 'subset': bool(cfg['channels']), 'reduce': cfg['reduce']}
     res.ev('run', r['status'], sorted(r['results'].items()), sorted((p, seeds.digest(t)) for p, t in r['tree'].items()))
     if r['status'] != 'ok':
         res.violation('convert-raises', f'{r.get("detail")} at {r.get("where")}', exc=r.get('exc'), where=r.get('where'), **facts0)
@@ -336,6 +338,8 @@ def _execute(scenario, res, br):
                 continue
         if len(rows) == 1:
             res.probe('single_frame_selected')
+        if cfg['slice'] and cfg['slice'][0] == 'slice' and (cfg['slice'][3] or 1) < 0:
+            res.probe('negative_step')
         if p.get('indirect'):
             res.probe('indirect_x')
         sel_classes.append((kind, min(len(rows), 3)))
